@@ -167,6 +167,7 @@ func C06(p *load.Prog, r *report.Report) {
 }
 
 func c06Pow(p *load.Prog, r *report.Report, m *elemModel, s, t *absint.Poly) {
+	nativePow := false
 	fn := p.Method(p.Root, "Scalar", "Pow")
 	if fn == nil {
 		r.Undecided("C06.anchor", "Pow", "", "method not found")
@@ -226,13 +227,33 @@ func c06Pow(p *load.Prog, r *report.Report, m *elemModel, s, t *absint.Poly) {
 			}
 			ok := got.Equal(want)
 			detail := fmt.Sprintf("receiver is %s; expected (Canon s)^(Canon t) mod n through math/big.Exp", got)
+			if base, T, isExp := absint.ExpOf(got); isExp && !ok {
+				// a native exponentiation over the Fiat arithmetic: the receiver is the formal power s^T; T must be the
+				// canonical integer of t, compared in the basis of the exponent's digit tests (as in C01)
+				bitsOfT := absint.TInt(0)
+				for i := 0; i < 256; i++ {
+					bitsOfT = bitsOfT.Add(absint.BIT(ct, i).Scale(new(big.Int).Lsh(big.NewInt(1), uint(i))))
+				}
+				Tc := absint.CompleteFamilies(it.DeepApplyTerm(T))
+				d := Tc.Sub(absint.DigitBasis(it.DeepApplyTerm(bitsOfT), Tc))
+				dc, isC := d.IsConst()
+				ok = base.Equal(s) && isC && dc.Sign() == 0
+				detail = fmt.Sprintf("receiver is the power s^T computed by a native exponentiation; T differs from the canonical integer of t by %s", d)
+				if ok {
+					nativePow = true
+				}
+			}
 			for _, e := range eventsOf(res, "modexp") {
 				parts := strings.Split(e.Msg, "|")
 				if len(parts) == 3 && (parts[0] != cs.Key() || parts[1] != ct.Key() || parts[2] != nT.Key()) {
 					detail += "; Exp is called with (base, exponent, modulus) = other than (Canon s, Canon t, n)"
 				}
 			}
-			r.Check(ok, "C06.pow", construct, pos, "receiver = (Canon s)^(Canon t) mod n: Exp(base = s, exponent = t, modulus = n), result left-padded to 32 bytes and decoded", detail)
+			okText := "receiver = (Canon s)^(Canon t) mod n: Exp(base = s, exponent = t, modulus = n), result left-padded to 32 bytes and decoded"
+			if nativePow {
+				okText = "receiver = s^T with T = Σ 2^i·BIT(Canon t, i) = Canon t: a native exponentiation whose digits, table look-ups, squarings and multiplications were followed as formal powers"
+			}
+			r.Check(ok, "C06.pow", construct, pos, okText, detail)
 		}
 		if tv, w := m.scalarVal(it, it.InputRoots()[1]); w != "" || !tv.Equal(t) {
 			r.Fail("C06.pow", construct+" operand", pos, "the exponent operand is modified")
